@@ -22,6 +22,11 @@ type Tol struct {
 	// (positions where zero values are written explicitly: the bool codec
 	// writes 0x01 there whatever the value).
 	BoolWZ bool
+	// NilBoolPtr tolerates "want nil *bool, got pointer to false": the size
+	// and encode functions of the bool codec accept a nil value pointer when
+	// the want-zero flag is set, which the pointer codec sets before looking
+	// at its target, so a nil *bool is written as 0x00.
+	NilBoolPtr bool
 }
 
 // CmpResult is the outcome of Compare.
@@ -29,6 +34,7 @@ type CmpResult struct {
 	Diff        string // first untolerated difference ("" = equal)
 	TolPtrEmpty int    // differences tolerated under Tol.PtrEmpty
 	TolBool     int    // differences tolerated under Tol.BoolWZ
+	TolNilBool  int    // differences tolerated under Tol.NilBoolPtr
 }
 
 // Compare compares the decoded value got with the expected value want (same
@@ -127,6 +133,10 @@ func (c *cmp) walk(w, g reflect.Value, path string, wz bool) {
 				c.res.TolBool++
 				return
 			}
+			if c.tol.NilBoolPtr && g.Elem().Kind() == reflect.Bool && !g.Elem().Bool() {
+				c.res.TolNilBool++
+				return
+			}
 			c.diff(path, "want nil pointer got non-nil")
 		case g.IsNil():
 			if c.tol.PtrEmpty && EncodesEmptyWZ(w.Elem()) {
@@ -185,8 +195,8 @@ func IsImplType(t reflect.Type) bool {
 //   - a nil pointer is empty; a non-nil pointer is as empty as its target;
 //   - a struct is empty when all its non-repeated fields (in declaration
 //     order, the first non-empty one consumes the marker) are empty, all its
-//     repeated fields have no element and it has no map field (a map field of
-//     a non-inlined struct always writes at least tag+0).
+//     repeated fields have no element and all its map fields are nil (a
+//     non-nil map always writes at least tag+0).
 func EncodesEmptyWZ(v reflect.Value) bool {
 	t := v.Type()
 	if IsImplType(t) {
@@ -209,7 +219,12 @@ func EncodesEmptyWZ(v reflect.Value) bool {
 			case IsImplType(sf.Type):
 				return false
 			case f.Kind() == reflect.Map:
-				return false
+				// a nil map writes nothing (since 684b018; before, it wrote one
+				// empty entry — the model only ever permits, so the laxer answer
+				// is right for both), a non-nil one at least tag+0
+				if !f.IsNil() {
+					return false
+				}
 			case f.Kind() == reflect.Slice && sf.Type.Elem().Kind() != reflect.Uint8:
 				if f.Len() > 0 {
 					return false
